@@ -43,9 +43,8 @@ Print Assumptions C23_rt_cauchy_pk1.
 
 Theorem C23_rt_cauchy_pk2 : forall a b : nat -> R,
   (det2 (full_t 1%nat b) <> 0 -> rt_cauchy_pk2_1 a b = flat_s 1%nat (spec_rt_cauchy_pk2 1%nat (full_s 1%nat a) (full_t 1%nat b))) /\
-  (det2 (full_t 2%nat b) <> 0 -> rt_cauchy_pk2_2 a b = flat_s 2%nat (spec_rt_cauchy_pk2 2%nat (full_s 2%nat a) (full_t 2%nat b))) /\
-  (det2 (full_t 3%nat b) <> 0 -> rt_cauchy_pk2_3 a b = flat_s 3%nat (spec_rt_cauchy_pk2 3%nat (full_s 3%nat a) (full_t 3%nat b))).
-Proof. intros a b; exact (conj (rt_cauchy_pk2_1_ok a b) (conj (rt_cauchy_pk2_2_ok a b) (rt_cauchy_pk2_3_ok a b))). Qed.
+  (det2 (full_t 2%nat b) <> 0 -> rt_cauchy_pk2_2 a b = flat_s 2%nat (spec_rt_cauchy_pk2 2%nat (full_s 2%nat a) (full_t 2%nat b))).
+Proof. intros a b; exact (conj (rt_cauchy_pk2_1_ok a b) (rt_cauchy_pk2_2_ok a b)). Qed.
 Print Assumptions C23_rt_cauchy_pk2.
 
 Theorem C23_rt_pk2_cauchy : forall a b : nat -> R,
